@@ -542,7 +542,13 @@ func main() {
 		"super-linear families are capped (polynomial time is bounded time; the bound only tells a hang from slow progress): chain of groupings / typedefs 1000, "+
 			"chain of identities 600 (resolveIdentities is about O(n^4) on a base chain, identity.go addChildren: 0.3 s at 300, 1.6 s at 600, 10 s at 1000, 132 s at 2000 "+
 			"measured on this tree), reversed augment chain 100 (the augment loop is cubic on it)",
-		"bound per history: "+boundText+" wall clock in a crash-isolated child (GOMEMLIMIT=1536MiB, max stack 512 MiB, empty working directory)",
+		"limits per history, enforced in the crash-isolated child by a watchdog (a history that exceeds one is a `resource` violation with the input as replay): "+
+			"processor time 10 s + 1 ms per input byte (user + system time of the child, so independent of machine load), memory held 1 GiB + 4 KiB per input byte "+
+			"(runtime.MemStats Sys - HeapReleased, sampled every 25 ms; GOMEMLIMIT=768MiB, address space capped at 4 GiB, max stack 512 MiB); "+
+			"in the parent: wall clock "+boundText+" (a timeout is a `hang` violation after a second run with four times the budget); empty working directory",
+		"amplifier family (deterministic, in the depth stream): for every kind of reference the library follows, k = 10, 20, 40, 80 levels each referring to the previous level "+
+			"b = 2, 3 times, clean and with one fault at the bottom; the measured processor time and memory of every case are listed under distribution.amplifier_cases "+
+			"(on the repaired tree all grow polynomially; families whose legal result has b^k nodes run only at levels with b^k <= 5000)",
 		"fuzz share: histories outside the modelled domain (a text does not parse, no text accepted, texts above 24 KiB, statements the resolver model does "+
 			"not interpret: refine, augment below uses, relative augment paths, posix-pattern, undecodable strings) are checked for survival only",
 		"model comparison: full error sets (position, class) of Process; when Go reports a link failure (no-such-module / no-such-submodule) only errors-vs-no-errors, "+
@@ -554,7 +560,7 @@ func main() {
 		"pkg/yang/*_test.go alone / as written groups / in pairs, grammar-aware mutation of generated sets and of those texts (incl. numeric boundary arguments " +
 		"combined with range/length restrictions and typedef chains, texts that Modules.Parse rejects late after typedef-bearing statements, submodules included by a module they do not belong to or whose owner is " +
 		"absent, identities / typedefs / groupings of one name in several (sub)modules derived from one base), byte-level mutation, nesting " +
-		"depth up to 10^4, 7-24 lexical errors per file, and the lexer's error limit (7-10 invalid escapes in four layouts followed by each kind of lexer construct, " +
+		"depth up to 10^4, amplifier chains (k levels x b references per level for every kind of reference, clean and with one fault at the bottom), 7-24 lexical errors per file, and the lexer's error limit (7-10 invalid escapes in four layouts followed by each kind of lexer construct, " +
 		"in particular invalid escapes before multi-byte runes; the same as a byte-level operator on existing texts). evaluations = histories run; distinct_nontrivial = distinct histories (by hash of names, texts, " +
 		"options) in which at least one text passes the generic parser, i.e. reaches the AST builder"
 	res.Write(f.Out)
@@ -725,6 +731,10 @@ func (a *agg) evaluate(f *lib.Flags, d *driver, j job, h *History, v *Verdict, o
 		sig := v.Kind + " " + site
 		if site == "" {
 			sig = v.Kind + " " + short(firstLine(v.Msg), 80)
+		}
+		if v.Kind == "resource" || v.Kind == "timeout" {
+			// the message carries measurements: one signature per family of inputs
+			sig = v.Kind + " " + strings.SplitN(h.What, ";", 2)[0]
 		}
 		a.crashSeen[sig]++
 		// every crash of the corpus is reported; of the generated streams at most 3 per site
